@@ -34,6 +34,98 @@ def operand_types(ctx):
     return out
 
 
+def recorded_operands(ctx, rule, only=None):
+    """What a step-adding method records in the step is what the caller passed: each object argument of RecipeStep(..)
+    is the parameter itself, a whole plate addressed as `param[:]`, or a container created by this very method - not
+    something re-derived from it (its plate, an element of self.results, a sub-selection)."""
+    model = ctx.model
+    for op, (anns, ctor, fi) in sorted(operand_types(ctx).items()):
+        if only is not None and op not in only:
+            continue
+        f2 = ctx.flow(fi.qualname)
+        calls = [c for c, s, b in f2.calls if isinstance(c.func, ast.Name) and c.func.id == 'RecipeStep']
+        if not calls:
+            raise AnalysisError(f"Recipe.{fi.name}: RecipeStep construction not seen by the flow analysis")
+        for c in calls:
+            for i, a in enumerate(c.args[2:], start=2):
+                raw = c.orig.args[i] if hasattr(c, 'orig') and i < len(c.orig.args) else None
+                pname = raw.id if isinstance(raw, ast.Name) else None
+                ann = (fi.annotation(pname) or '') if pname else ''
+                objectish = any(t in ann for t in ('Container', 'Plate', 'PlateSlicer'))
+                v = a
+                descr, ok = '', True
+                alts = _value_alternatives(v)
+                for alt in alts:
+                    t = strip_refs(alt)
+                    if isinstance(t, Param):
+                        continue
+                    if isinstance(t, ast.Constant):
+                        continue
+                    if isinstance(t, ast.Subscript) and isinstance(strip_refs(t.value), Param) and \
+                            isinstance(t.slice, ast.Slice) and t.slice.lower is None and t.slice.upper is None and t.slice.step is None:
+                        continue        # a whole plate addressed as plate[:]
+                    if isinstance(t, ast.Call) and isinstance(t.func, ast.Name) and t.func.id in ('Container', 'Plate'):
+                        continue        # created by this step
+                    if not objectish and not any(isinstance(n, ast.Attribute) and n.attr in ('plate', 'results', 'wells')
+                                                 for n in deep_walk(t)):
+                        continue        # plain data (quantities, keyword dicts, names)
+                    ok = False
+                    descr = show(alt, 60)
+                ctx.ob(rule, fi, c.lineno if hasattr(c, 'lineno') else fi.node.lineno,
+                       f"Recipe.{fi.name} records argument {i - 2} of the step as it was passed", ok,
+                       fact=('the parameter itself / param[:] / a container created here' if ok else f"records {descr}"),
+                       why='the step acts on something other than what the caller addressed (e.g. the whole plate '
+                           'instead of the slice, or a selection re-derived when the step was declared)',
+                       key=f"recorded operand {i - 2} of {fi.name}")
+
+
+def _value_alternatives(v, depth=0):
+    if depth > 8:
+        return [v]
+    if isinstance(v, Ref):
+        return _value_alternatives(v.value, depth + 1) if isinstance(v.value, (Ref, Phi)) else [v]
+    if isinstance(v, Phi):
+        out = []
+        for o in v.options:
+            out.extend(_value_alternatives(o, depth + 1))
+        return out
+    return [v]
+
+
+def declaration_refusals(ctx, rule):
+    """Declaring a step must not refuse a program the eager library accepts: the only value-dependent refusal beyond
+    'undeclared object' is the container-into-itself transfer, and it must be limited to two Containers (two regions
+    of one plate share a name and are a legal eager transfer)."""
+    from ..flow import facts_at
+    model = ctx.model
+    fi = model.func('Recipe.transfer')
+    ff = ctx.flow(fi.qualname)
+    n = 0
+    for ex in ff.raise_exits():
+        if (ex.exc or '') != 'ValueError':
+            continue
+        cmps = facts_at(ex.state)
+        # the raise guarded by an equality of the two operands' names
+        name_eq = [c for c in cmps if c.op == 'eq' and c.right is not None and not c.fact.exc and
+                   all(any(isinstance(m, ast.Attribute) and m.attr == 'name' for m in deep_walk(x)) for x in (c.left, c.right))]
+        if not name_eq:
+            continue
+        n += 1
+        both = set()
+        for c in cmps:
+            t = strip_refs(c.left)
+            if c.op == 'truth' and isinstance(t, ast.Call) and getattr(t.func, 'id', '') == 'isinstance' and \
+                    unparse(t.args[1].orig if hasattr(t.args[1], 'orig') else t.args[1]) == 'Container' and \
+                    isinstance(strip_refs(t.args[0]), Param):
+                both.add(strip_refs(t.args[0]).name)
+        ok = len(both) >= 2
+        ctx.ob(rule, fi, ex.line, 'Recipe.transfer refuses equal names only for two Containers', ok,
+               fact=f"refusal on equal names under isinstance(.., Container) of {sorted(both)}",
+               why='a transfer between two regions of one plate (same name) is refused at declaration although the '
+                   'eager transfer is legal', key='self-transfer refusal too wide')
+    ctx.count('declaration_name_refusals', n)
+
+
 def classify_operand(a, state, ff, optypes, depth=0):
     """CURRENT / STALE / OTHER for an operand of an operation call in bake."""
     seen = set()
@@ -335,6 +427,8 @@ def run(ctx):
         ctx.ob('C08.R3', fi, fi.node.lineno, f"Recipe.{fi.name} only records the step (no operation, no result written)",
                not bad and not res_writes, fact=f"operation calls: {bad}; writes to self.results: {len(res_writes)}",
                why='a step takes effect before bake', key=f"effect before bake in {fi.name}")
+    recorded_operands(ctx, 'C08.R3')
+    declaration_refusals(ctx, 'C08.R7')
     # ---------------------------------------------------------------- R4 order
     loops = [s for s in bake.node.body if isinstance(s, ast.For)]
     step_loops = [l for l in loops if path_from_param(ff.resolved.get(id(l))) == ('self', ['steps'])]
